@@ -71,6 +71,11 @@ BagOfSeq(s) == [x \in Range(s) |-> Cardinality({ i \in DOMAIN s : s[i] = x })]
 BagOfSet(P, F(_)) == [v \in { F(p) : p \in P } |-> Cardinality({ p \in P : F(p) = v })]
 NoDup(s) == \A i, j \in DOMAIN s : s[i] = s[j] => i = j
 
+\* list nodes <-> sequences of nodes
+ListOf(s)  == Mk([__list |-> "1"], [i \in { ToString(j - 1) : j \in DOMAIN s } |-> s[CHOOSE j \in DOMAIN s : ToString(j - 1) = i]])
+ListSeq(n) == [i \in 1..Cardinality(DOMAIN n.ch) |-> n.ch[ToString(i - 1)]]
+SelectSeq2(s, Test(_)) == SelectSeq(s, Test)
+
 \* one-line machine-readable output (ToString avoids TLC's pretty-printer line wrapping)
 Out(v) == PrintT(ToString(v))
 \* report one element of a non-empty difference set
